@@ -40,8 +40,15 @@ def _gen_scripted(ch):
             ops.append(['query', ch.choice('q', ('is_sess_idle', 'is_sess_idle', 'send_bundle_get_queue', 'recv_bundle_get_queue'))])
         else:
             ops.append(['pop'])
+    cap = ch.choice('cap', (1 << 30, 1 << 30, 200, 1000))
+    if ch.coin('pipeline', 1, 4):
+        # a short transfer completely written and a long one behind it that the bounded socket buffer stops half way (the peer
+        # reads only between operations); the peer then answers the *earlier* transfer, a third one waits in the queue
+        ops = ([['send', ch.choice('s1', (1, 40))], ['send', ch.choice('s2', (700, 3000))]] + ([['send', ch.choice('s3', (1, 40, 700))]] if ch.coin('third', 2, 3) else [])
+               + [['answer', ch.choice('how1', ('refuse', 'refuse', 'ack1')), ch.choice('rsn1', (0, 1, 2, 3))]] + ops)
+        cap = ch.choice('cap2', (200, 1000, 1000))
     return dict(scenario='tcpcl_scripted', role=ch.choice('role', ('passive', 'active')), cfg=cfg, chunk_size=10240,
-                net=dict(tcp_capacity=ch.choice('cap', (1 << 30, 1 << 30, 200, 1000))),
+                net=dict(tcp_capacity=cap),
                 peer_mru=ch.choice('pmru', (1 << 20, 50, 300)), ops=ops, drain=ch.choice('drain', ('ack', 'refuse', 'mixed')),
                 terminate=ch.choice('sterm', (None, 'peer', 'user')))
 
